@@ -358,6 +358,20 @@ pub fn corrupt(rng: &mut impl Rng, toks: &mut Vec<String>) {
 pub fn corrupt_chars(rng: &mut impl Rng, text: &str) -> String {
     const JUNK: &[char] = &['\'', '"', '.', 'e', '1', '(', ')', '[', ']', '{', '}', ',', ';', ':', '?', ' ', '+', '=', 'n', 'é', '\\'];
     let mut cs: Vec<char> = text.chars().collect();
+    // now and then damage a number literal specifically: a second point, an exponent, a doubled point
+    if rng.gen_bool(0.25) {
+        if let Some(p) = cs.iter().position(|c| c.is_ascii_digit()) {
+            let ins: &[char] = [&['.', '5', '.', '1'][..], &['e', '5'][..], &['.', '.', '2'][..], &['e'][..], &['.', '2', '.'][..]][rng.gen_range(0..5)];
+            let mut q = p;
+            while q < cs.len() && (cs[q].is_ascii_digit() || cs[q] == '.') {
+                q += 1;
+            }
+            for (k, c) in ins.iter().enumerate() {
+                cs.insert(q + k, *c);
+            }
+            return cs.into_iter().collect();
+        }
+    }
     for _ in 0..rng.gen_range(1..3) {
         if cs.is_empty() {
             cs.push(JUNK[rng.gen_range(0..JUNK.len())]);
